@@ -3,7 +3,7 @@ import numpy as np
 from lib import common as C, models as M
 
 GEN = ['BlockFacts']
-IMPORTS = ['C03/basis_product', 'C03/mul_den', 'C03/rs_matrix_den', 'C03/rmatmul_den', 'C03/add_den', 'C03/dense_add_den', 'C14/compose_is_block_product', 'C14/apply_is_block_matvec', 'C14/pack_unpack_index']
+IMPORTS = ['C03/basis_product', 'C03/mul_den', 'C03/rs_matrix_den', 'C03/rmatmul_den', 'C03/add_den', 'C03/dense_add_den', 'C14/compose_is_block_product', 'C14/apply_is_block_matvec', 'C14/pack_unpack_index', 'C03/prune_thresholds']
 TRUSTED = ['linear solves deliver the inverses assumed by the theorem (inner block and Schur complement)', 'C04, C05 (chain rule and single-level solve)']
 ASSUMPTIONS = ['no executable correspondence: tie = structural facts extracted from solved_block.py + paired flat/nested runs on the implementation',
                'uniqueness / convergence of the inner solves is assumed']
